@@ -679,6 +679,14 @@ package ring
 //@   assigns p3
 //@   ensures val(p3) == old(val(p3)) - old(val(p1)) * old(val(p2)) && mexp(p3) == old(mexp(p3)) && dom(p3) == 1
 
+//@ afunc ModExp
+//@   trusted opaque at the abstract level: some residue (coefficient-level contract: property C11)
+//@ afunc Ring.AutomorphismNTT
+//@   trusted ring-element view: polOut is the image of polIn under the automorphism X -> X^gen (coefficient-level contract: property C01)
+//@   requires isntt(polIn)
+//@   assigns polOut
+//@   ensures mexp(polOut) == old(mexp(polIn)) && dom(polOut) == 1
+
 //@ afunc Poly.Zero
 //@   trusted ring-element view: every coefficient is set to 0
 //@   assigns pol
